@@ -1,7 +1,7 @@
 (* C04 -- no lost wake-up: after every operation (timer expiries included) no request is pending
    while the store could serve the one that is next in line. *)
 From Coq Require Import List ZArith Bool Arith.
-From FV Require StoreP StorePInv StorePOrder StoreB StoreBInv StoreBProps.
+From FV Require StoreP StorePInv StorePOrder StoreB StoreBInv StoreBProps StoreBWeak World Factory FactoryInv FactoryQueue.
 Import ListNotations.
 
 (* ReservableReqStore / ReservablePriorityReqStore *)
@@ -61,3 +61,21 @@ Example C04_witness :
   snd (StoreB.step s0 (StoreB.Ready 9)) = [0] /\
   length (StoreB.getq (StoreB.step_st s0 (StoreB.Ready 9))) = 1.
 Proof. vm_compute. auto. Qed.
+
+(* without any side condition on the items (unlike the theorems above, which assume pairwise distinct
+   objects): one operation of a buffer / fleet store keeps "no request waits while the store could serve
+   the one next in line", together with the two counting bounds it needs, in EVERY state ... *)
+Theorem C04_no_lost_wakeup_step_unconditional :
+  forall s o, StoreBWeak.WN s -> StoreBWeak.WN (StoreB.step_st s o).
+Proof. exact StoreBWeak.wn_step. Qed.
+Print Assumptions C04_no_lost_wakeup_step_unconditional.
+
+(* ... hence on every Buffer / Fleet edge of every factory configuration after every number of kernel
+   steps: no space request is waiting while the edge could grant it, no retrieval request is waiting
+   while an unreserved item is ready (theories/Factory/FactoryQueue.v, lifted through every process block) *)
+Theorem C04_no_lost_wakeup_in_every_factory :
+  forall nodes edges order n, Forall (fun ed => StoreBWeak.WN (World.est ed)) edges ->
+    forall i ed, nth_error (World.wedges (FactoryInv.iter_fstep n (Factory.mk_world nodes edges order))) i = Some ed ->
+      StoreBProps.NoLost (World.est ed) /\ StoreBWeak.W (World.est ed).
+Proof. exact FactoryQueue.no_lost_wakeup_everywhere. Qed.
+Print Assumptions C04_no_lost_wakeup_in_every_factory.
